@@ -189,6 +189,25 @@ func init() {
 		ex.store(st, args[0], BufV{b.ID, BVAdd(b.Len, BV(1, 64))}, pc, pos)
 		return callResult{val: ZeroV(resT), st: st}
 	}
+	stdModels["(*bytes.Buffer).WriteRune"] = func(fr *Frame, fn *ssa.Function, args []Value, pc *Term, st *State, pos token.Pos, resT types.Type) callResult {
+		used(fr, "bytes.Buffer.WriteRune (UTF-8: one byte below 0x80, two bytes below 0x800, otherwise 3-4 unspecified bytes)")
+		ex := fr.ex
+		b := ex.loadBuf(st, args[0], pc, pos)
+		r := args[1].(IntV).T // int32
+		sl := SliceV{St: StDyn, ID: b.ID, Off: BV(0, 64), Len: b.Len, Cap: b.Len, Elem: types.Typ[types.Uint8]}
+		one := And(BVSle(BV(0, 32), r), BVSlt(r, BV(0x80, 32)))
+		two := And(BVSle(BV(0x80, 32), r), BVSlt(r, BV(0x800, 32)))
+		b0 := Ite(one, Extract(r, 7, 0), Ite(two, BVOrT(BV(0xC0, 8), Extract(BVLshr(r, BV(6, 32)), 7, 0)), Fresh("rune.b0", SBV(8))))
+		b1 := Ite(two, BVOrT(BV(0x80, 8), BVAndT(Extract(r, 7, 0), BV(0x3F, 8))), Fresh("rune.b1", SBV(8)))
+		n := Ite(one, BV(1, 64), Ite(two, BV(2, 64), Fresh("rune.n", SBV(64))))
+		ex.assume(pc, And(BVSle(BV(1, 64), n), BVSle(n, BV(4, 64))))
+		ex.elemStore(st, sl, b.Len, IntV{b0})
+		ex.elemStore(st, sl, BVAdd(b.Len, BV(1, 64)), IntV{b1})
+		ex.elemStore(st, sl, BVAdd(b.Len, BV(2, 64)), IntV{Fresh("rune.b2", SBV(8))})
+		ex.elemStore(st, sl, BVAdd(b.Len, BV(3, 64)), IntV{Fresh("rune.b3", SBV(8))})
+		ex.store(st, args[0], BufV{b.ID, BVAdd(b.Len, n)}, pc, pos)
+		return callResult{val: TupleV{[]Value{IntV{n}, ZeroV(types.Universe.Lookup("error").Type())}}, st: st}
+	}
 	stdModels["(*bytes.Buffer).Write"] = func(fr *Frame, fn *ssa.Function, args []Value, pc *Term, st *State, pos token.Pos, resT types.Type) callResult {
 		used(fr, "bytes.Buffer.Write (appends p, returns len(p), nil)")
 		ex := fr.ex
@@ -282,6 +301,10 @@ func init() {
 		used(fr, "io.ReadFull (err == nil <=> n == len(buf))")
 		return fr.modelRead(args[1], pc, st, true)
 	}
+	stdModels["crypto/rand.Read"] = func(fr *Frame, fn *ssa.Function, args []Value, pc *Term, st *State, pos token.Pos, resT types.Type) callResult {
+		used(fr, "crypto/rand.Read (fills the buffer with arbitrary bytes; err == nil <=> n == len(buf))")
+		return fr.modelRead(args[0], pc, st, true)
+	}
 	// ---- context
 	ctxModel := func(name string) stdModel {
 		return func(fr *Frame, fn *ssa.Function, args []Value, pc *Term, st *State, pos token.Pos, resT types.Type) callResult {
@@ -294,6 +317,17 @@ func init() {
 				}
 			default:
 				fr.ex.assumeNonNil(v, pc)
+			}
+			if name == "context.WithTimeout" {
+				// remember the timeout the context was created with (contexts are immutable)
+				if tv, ok := v.(TupleV); ok {
+					if iv, ok := tv.E[0].(IfaceV); ok {
+						if d, ok := args[1].(IntV); ok {
+							ta := st.get("ctxmeta|timeout", SArr(SBV(64), SBV(64)))
+							st.set("ctxmeta|timeout", Store(ta, iv.Pay, d.T))
+						}
+					}
+				}
 			}
 			return callResult{val: v, st: st}
 		}
